@@ -1,8 +1,60 @@
 /-
-C02 — property theorems (under construction; see DESIGN.md section 8).
+C02 — Acting as receiver, every QoS 1 PUBLISH gets exactly one PUBACK, every
+QoS 2 PUBLISH a PUBREC, every PUBREL a PUBCOMP; QoS 1 is handed on once per
+PUBLISH received, QoS 2 exactly once per exchange, at PUBREL time, with the
+content of the first PUBLISH.
+
+Property theorems only (helper lemmas: `Proofs/BrokerQos*.lean`), stated on the
+code-shaped broker model `Model/Broker.lean` for *all* broker states satisfying
+the representation invariant `Inv` (proved to hold initially and to be preserved
+by every `step`), all connection identifiers, packets and histories.
 -/
-import Mqtt.Model.Broker
-import Mqtt.Spec.Broker
+import Mqtt.Proofs.BrokerQos
 
 namespace Mqtt.Properties.C02
+
+open Mqtt.Iface.Broker Mqtt.Model.Broker Mqtt.Proofs.BrokerQos
+
+/-! ## 0. Concrete states for the non-vacuity examples
+
+Connection 1 ("a", CleanSession=0) subscribes `t` at QoS 2 and `u` at QoS 0,
+an in-process callback 1000 subscribes `t` at QoS 1, connection 2 ("b",
+CleanSession=1) is the publisher. -/
+
+def connectPkt (cid : Bytes) (clean : Bool) : First :=
+  .connect { protoName := [77, 81, 84, 84], version := 4, clean := clean, will := none, clientId := cid }
+
+def demoEvs : List Ev :=
+  [.first 1 (connectPkt [97] false) true,
+   .first 2 (connectPkt [98] true) true,
+   .packet 1 (.subscribe 1 [([116], 2), ([117], 0)]),
+   .srvSub 1000 [116] 1]
+
+def demo : B := (run {} demoEvs).1
+
+/-! ## (a) what a hand-over is -/
+
+/-- **(a)** Every output of `onPublish`, of the subscriber loop `fanout` and of
+`releaseAll` is a PUBLISH written to a connection or a callback invocation —
+never an acknowledgement, never a `closed` — and none of them touches the
+connection table, the session objects, the session store, the session
+reference counter or the subscription tree (only the retained tree and the
+packet-identifier counter may change). -/
+theorem onPublish_outputs (b : B) (m : Msg) (subs : List (Nat × Nat)) (l : List QEntry) :
+    (Frame b (onPublish b m).1 ∧ ∀ o ∈ (onPublish b m).2.2.1, HandOver o) ∧
+    (Frame b (fanout b m subs).1 ∧ (fanout b m subs).1.topics = b.topics ∧
+      ∀ o ∈ (fanout b m subs).2.2, HandOver o) ∧
+    (Frame b (releaseAll b l).1 ∧ ∀ o ∈ (releaseAll b l).2, HandOver o) :=
+  ⟨⟨(onPublish_frame b m).1, fun o ho => handOver_of ((onPublish_frame b m).2 o ho)⟩,
+   ⟨(fanout_frame b m subs).1, (fanout_frame b m subs).2.1,
+    fun o ho => handOver_of ((fanout_frame b m subs).2.2 o ho)⟩,
+   ⟨(releaseAll_frame b l).1, fun o ho => handOver_of ((releaseAll_frame b l).2 o ho)⟩⟩
+
+/-- on the demo state a retained QoS 1 publish of `t` reaches connection 1
+(RETAIN cleared) and the callback (object as is, E10) -/
+example : (onPublish demo ⟨{ qos := 1, retain := true, topic := [116], pktid := 7, payload := [1] }, false⟩).2.2.1 =
+    [.send 1 (.publish { qos := 1, topic := [116], pktid := 7, payload := [1] }),
+     .call 1000 { qos := 1, retain := true, topic := [116], pktid := 7, payload := [1] }] := by
+  decide
+
 end Mqtt.Properties.C02
